@@ -87,7 +87,12 @@ func (k *Keeper) NewEVM(
 			}
 
 			metadata := contract.GetMetadata()
-			contracts = append(contracts, corevm.NewCustomPrecompiledContract(common.BytesToAddress(metadata.Address), methods, metadata.Name))
+			cpc := corevm.NewCustomPrecompiledContract(common.BytesToAddress(metadata.Address), methods, metadata.Name)
+			if metadata.Disabled {
+				// a disabled contract is still a known precompiled contract, but refuses to execute
+				cpc = cpc.(*corevm.CustomPrecompiledContract).WithDisabled(true)
+			}
+			contracts = append(contracts, cpc)
 		}
 		evm = evm.WithCustomPrecompiledContracts(contracts...)
 	}
